@@ -79,7 +79,9 @@ pub trait ServerMsg: ReadXml {
         loop {
             match reader.read_resolved_event()? {
                 (ResolveResult::Bound(ns), Event::Start(tag))
-                    if ns == Self::TAG_NS
+                    // a message is one document: a second root element is not read over the first
+                    if this.is_none()
+                        && ns == Self::TAG_NS
                         && tag.local_name().as_ref() == Self::TAG_NAME.as_bytes() =>
                 {
                     this = Some(Self::read_xml(&mut reader, &tag)?);
